@@ -662,3 +662,39 @@ mod tests {
         run_executor_tests(BashScriptExecutor::default(), tests);
     }
 }
+
+/// Verification hooks (compiled only with `--cfg scrut_verif`): forwarding wrappers that expose
+/// crate-private leaf functions to the external harness crates. No behaviour of its own.
+#[cfg(scrut_verif)]
+pub mod verif_hooks {
+    /// `Ok(None)`: not a divider line; `Ok(Some((prefix, index, exit_code)))`: divider found
+    #[allow(clippy::type_complexity)]
+    pub fn parse_divider_bytes(
+        line: &[u8],
+    ) -> Result<Option<(Option<Vec<u8>>, usize, i32)>, String> {
+        match super::parse_divider_bytes(line) {
+            Ok(super::DividerSearch::NotFound) => Ok(None),
+            Ok(super::DividerSearch::Found {
+                prefix,
+                output_index,
+                exit_code,
+            }) => Ok(Some((prefix, output_index, exit_code))),
+            Err(err) => Err(err.to_string()),
+        }
+    }
+
+    pub fn generate_divider(salt: &str, index: usize) -> String {
+        super::generate_divider(salt, index)
+    }
+
+    /// The per-test (index, output, exit code) triples a divided stream is split into
+    pub fn iterate_divided_output(output: &[u8]) -> Result<Vec<(usize, Vec<u8>, i32)>, String> {
+        let mut collected = vec![];
+        super::iterate_divided_output("verif", output, |index, output, exit_code| {
+            collected.push((index, output.to_vec(), exit_code));
+            Ok(())
+        })
+        .map_err(|err| err.to_string())?;
+        Ok(collected)
+    }
+}
